@@ -539,6 +539,29 @@ class Enumerator(object):
                     p.value = ('call', 'Ok', (('unit',),), ()) if tryfe else ('unit',)
                 res.append(p)
             return res
+        if k in ('Call', 'MethodCall') and S.norm_path(H.callee_decl(node) or '') == 'std::result::Result::map_err' and len(H.call_args(node)) == 2 \
+                and S.closure_node(H.call_args(node)[1]) is not None and len(S.closure_node(H.call_args(node)[1])['params']) == 1 \
+                and self.has_ctl(S.closure_node(H.call_args(node)[1])['body']) and not self.has_ctl(H.call_args(node)[0]):
+            # `r.map_err(|e| match e {..})`: the closure decides, so read it as `match r { Ok(v) => Ok(v), Err(e) => Err(match e {..}) }`
+            rn, cn = H.call_args(node)[0], S.closure_node(H.call_args(node)[1])
+            v = self.leaf(rn, path)
+            out = []
+            okp = path.fork()
+            self.add_pat_cond(okp, v, 'Ok(_)', {'Ok'})
+            okty = re.match(r'^(?:std|core)::result::Result<\(\), ', node.get('ty') or '')
+            okp.value = ('call', 'Ok', ((('unit',) if okty else ('field', v, 'Ok.0')),), ())
+            if okp.done != 'infeasible':
+                out.append(okp)
+            erp = path.fork()
+            self.add_pat_cond(erp, v, 'Err(_)', {'Err'})
+            if erp.done != 'infeasible':
+                self.ev.bind_pat(cn['params'][0], ('field', v, 'Err.0'), erp.env)
+                for q in self.run(cn['body'], erp):
+                    if not q.done:
+                        q.value = ('call', 'Err', (q.value,), ())
+                    q.env = dict(path.env)
+                    out.append(q)
+            return out
         if k in ('Call', 'MethodCall') and S.norm_path(H.callee_decl(node) or '') == 'std::iter::Extend::extend' and len(H.call_args(node)) == 2:
             # `set.extend(iter)`: read as the loop `for x in iter { set.insert(x) }`
             sty = S.norm_path(canon.strip_ty(H.call_args(node)[0].get('ty') or ''))
